@@ -40,6 +40,16 @@ B64UrlEncode(b) ==
                IN B64Alphabet[((w \div (2 ^ (10 - r))) % 64) + 1]
   IN [j \in 1..((8 * n + 5) \div 6) |-> Ch(j - 1)]
 
+\* the same as a TLA+ string (TLC strings cannot be built from character codes)
+B64Chars == <<"A", "B", "C", "D", "E", "F", "G", "H", "I", "J", "K", "L", "M", "N", "O", "P", "Q", "R", "S", "T", "U", "V", "W",
+              "X", "Y", "Z", "a", "b", "c", "d", "e", "f", "g", "h", "i", "j", "k", "l", "m", "n", "o", "p", "q", "r", "s", "t",
+              "u", "v", "w", "x", "y", "z", "0", "1", "2", "3", "4", "5", "6", "7", "8", "9", "-", "_">>
+B64UrlText(b) ==
+  LET e == B64UrlEncode(b)
+      RECURSIVE T(_)
+      T(i) == IF i > Len(e) THEN "" ELSE B64Chars[B64Val(e[i]) + 1] \o T(i + 1)
+  IN T(1)
+
 \* m characters -> floor(6m/8) octets.  ok: every character is in the alphabet and m mod 4 # 1
 \* (a single left-over character carries no complete octet).  canonical: the unused trailing
 \* bits are zero (RFC 4648 section 3.5 lets a decoder ignore them; see Trace_JWT assumptions).
